@@ -96,6 +96,12 @@ Definition effective_unsafe (p : project_source) : bool :=
   | Discovered None => false
   end.
 
+(* a small concrete configuration used by examples, refutation witnesses and replays *)
+Definition ex_env : list str := [[115;116;100]; []; [115;105;116;101]]%N.          (* 'std', '', 'site' *)
+Definition ex_proj : str := [112;114;111;106]%N.                                   (* 'proj' *)
+Definition ex_gi : str := [103;105]%N.                                             (* 'gi' *)
+Definition ex_cfg (u : bool) : cfg := {| auto_import := [ex_gi]; unsafe := u; env_path := ex_env |}.
+
 (* ---------------------------- the helper: try/except/finally over sys.path *)
 
 Inductive exc := ImportError | OtherException | BaseExc.   (* BaseExc: not an Exception subclass *)
